@@ -101,9 +101,17 @@ def planner_costs(ck, tier):
                     budgets = [3000, 3000, 3000]
                 else:
                     budgets = [rng.choice([150, 300, 600]), rng.choice([300, 600]), rng.choice([600, 1200]), 300]
-                jobs.append({"id": jid, "planner": p["name"], "objective": ob, "W": W, "H": H, "obst": obst, "start": s,
-                             "goal": g, "seed": rng.randrange(1, 1 << 30), "thr": rng.choice([0.0, 0.0, 0.4]),
-                             "budgets": budgets, "exactCost": p["name"] not in DEFERRED})
+                job = {"id": jid, "planner": p["name"], "objective": ob, "W": W, "H": H, "obst": obst, "start": s,
+                       "goal": g, "seed": rng.randrange(1, 1 << 30), "thr": rng.choice([0.0, 0.0, 0.4]),
+                       "budgets": budgets, "exactCost": p["name"] not in DEFERRED}
+                if rng.random() < 0.5:
+                    # phase 1: a short hop; phase 2 (after clearQuery on the same instance): the long query
+                    free = [c for c in range(W * H) if c not in obst]
+                    near = [c for c in free if c != s and abs(c % W - s % W) <= 1 and abs(c // W - s // W) <= 1]
+                    if near:
+                        job["requery"] = {"start": s, "goal": g, "budgets": budgets[:3]}
+                        job["goal"] = rng.choice(near)
+                jobs.append(job)
     rng.shuffle(jobs)
     jp = os.path.join(WORK, "c04-jobs.ndjson")
     vlib.write_ndjson(jp, jobs)
